@@ -8,6 +8,30 @@ import sys
 sys.path.insert(0, '.')
 ALL = [f'C{i:02d}' for i in range(1, 21)]
 HOOK_COMMITS = [l.strip() for l in open('tools/hook_commits.txt')] if os.path.exists('tools/hook_commits.txt') else []
+
+# per-property statement of what is proved and what is only checked differentially (kept here so that the coordinator owns it)
+SCOPE = {
+ 'C01': 'Proved for every workbook/history/value type: evaluate after any set_value/evaluate history (incl. range and list forms) = from-scratch value, from the three initial configurations; the soundness hypothesis on set_value\'s equality test is shown necessary. By correspondence only: iterative mode is C06; set_as_range, writes over formula cells, CSE arrays and computed references are outside the model.',
+ 'C02': 'Proved: the live precedence table is the statement\'s; shunting-yard + AST build invert the grammar for every well-formed surface expression; the emitted Python parses to the same tree (for emittable trees); literals denote themselves; composition for every run-time semantics incl. the C10 operator semantics the driver runs. By correspondence only: array literals, reference operators, ROW/COLUMN/OFFSET/INDIRECT/SUBTOTAL handlers, openpyxl\'s tokenizer, CPython\'s parser (cross-checked against ast.parse on every run).',
+ 'C03': 'Proved: cell codec round trip (partial: text constants starting with "=" — counterexample theorem, known finding), determinism/order independence as a mapping, byte idempotence under distinct sort keys, key order of the document, pickle freshness under the digest contract, loaded model satisfies the engine invariant hence behaves like the original under every history. Codecs (yaml/json/pickle), md5 and subprocess/thread configurations are contracts validated by the correspondence run.',
+ 'C04': 'Proved: scanner completeness for written references, run-time reads covered by declared precedents for every semantics, edges after any completed or aborted build pass, ancestors ⊇ influence. `written` carries decidable side conditions (documented). The read trace is taken from outside /repo; reads is defined on the formula tree and tied to the emitted code by the token/trace diff.',
+ 'C05': 'Proved: order/permutation independence, idempotent repeat, every access path (cell, any enclosing rectangle, clipped unbounded row/column, list/tuple/generator, sheet-less) equals the from-scratch value; clip = code\'s intersection for every used area. Oracle-only (no Lean counterpart): CSE-array and structured-table-reference workbooks.',
+ 'C06': 'Proved: pass bound, honest stop (≤ (1+rel)·tol with the live rel/operator/defaults), contraction of pycel\'s depth-first pass for any linear system with ‖A‖∞ ≤ q, the fixed-point bound and their join (result within q/(1−q)·(1+rel)·tol), agreement with plain evaluation on acyclic workbooks along every history. Formulas are reads + combiner; matching that to compiled read order rests on the correspondence.',
+ 'C07': 'PARTIAL by nature. Proved for the bookkeeping model: frame, isolation under every schedule and any number of threads, fresh-thread safety, with the placement of every piece of state (thread-local vs shared, lazily created attributes) measured behaviourally from the live code on every run and re-proved isolating; isolation under the live placement excludes call-time reads of the shared func-meta name_space (counterexample theorem = known finding). Not expressible: preemption inside one API method or `ctr += 1`, the GIL, numpy threads — the deterministic two-thread scheduler explores switches at cell-evaluation and tracker/context-API granularity only.',
+ 'C08': 'Proved: outputs of the trimmed (and reloaded) model equal the untrimmed model\'s under every assignment of the inputs incl. buried inputs; frozen cells hold their trim-time value; exact error condition; the trimmed state satisfies the C01 invariant. A second trim, trim on loaded/.xlsx models and writes over inputs that keep a formula are checked between real models only.',
+ 'C09': 'Proved: after a failing evaluate the invariant holds and all transient state is restored; retry and dependants fail again with a pycel class, never stale, never a bare assertion; unrelated cones evaluate to denote; repair = fresh model. Iterative mode: wip/transient restoration for every graph; retry of transitive dependants in cyclic graphs is `_partial` (correspondence only). Whole-column/intersection/defined-name readers are oracle-only.',
+ 'C10': 'Proved for arbitrary numeric kernels: totality under the Finite hypothesis, error propagation left-first, coercion clauses, #DIV/0!, renderings of &, one total order with trichotomy/complements/rank/case-insensitivity/blank neutrality, transitivity on non-blank triples (counterexample with blank). For the concrete float kernels finiteness on moderate operands and IEEE rounding are validated by the exhaustive pool correspondence only.',
+ 'C11': 'Proved: column-letter and sheet-quote round trips, print/parse round trip for every address with a sheet name without "!" (partial; counterexample = known finding), notations agree, cells count/membership, intersection/union lattice laws incl. unbounded operands and mixed sheet qualification, offsets wrap at the live limits. R1C1 ranges, AddressMultiAreaRange and defined names by correspondence only.',
+ 'C12': 'Proved on the model of the work-list: termination, soundness on consistent files, completeness for a perturbed reachable cell, blame, no silent skip with the code\'s skip rules as explicit exclusions. `C12_failed_justified` is weaker than wished (class justified by some raising formula). Whole-column references and interrupted builds are oracle-only; logical-vs-number and stored "" are known findings.',
+ 'C13': 'Proved for all shapes and any scalar operation: pointwise lifting under every broadcasting case, explicit failure on incompatible shapes, pointwise lifted functions, exact target shape, trim/repeat/#N/A element law, context stack discipline for nested evaluations, member = element. numpy broadcasting and openpyxl ArrayFormula storage are modelled by hand and validated by the exhaustive shape enumeration.',
+ 'C14': 'Proved for all lists/arrays: numeric-only, first error, permutation/reshape invariance (under at most one distinct error; counterexample otherwise), additivity, AVERAGE = SUM/COUNT, MIN/MAX, SUBTOTAL against the live dispatch table, SUMPRODUCT. Float rounding beyond dyadic inputs is outside the exact model (tolerant compare for AVERAGE only).',
+ 'C15': 'Proved: live operator table, satisfaction relation per type, wildcard matcher = declarative definition, selection = exactly the matching positions, …IFS₁ = …IF, criteria commute under any permutation, =x / <>x partition, AVERAGEIFS = SUMIFS/COUNTIFS, totality. Numeric text under numeric criteria is a test-pinned known finding.',
+ 'C16': 'Proved for all vectors/tables: the Excel order is a strict total order, bisect_right specification, exact match = first position, approximate matches on sorted data, VLOOKUP/HLOOKUP/LOOKUP = INDEX∘MATCH, transpose law, out-of-range indices. Choice among duplicates of the answer value is left to the code (ungoverned).',
+ 'C17': 'Proved algebraically for every integer day (no sweep): calendar bijection, DATE∘(YEAR,MONTH,DAY) = id on 0…2958465 with the 1900 quirks, weekday period, carry for all integer months/days, EOMONTH/EDATE, YEARFRAC symmetry, H/M/S on every whole second and the range theorem, #NUM! outside the range. "Nearest second" off whole seconds, text/logical coercions and YEARFRAC values (1e-12) are differential only.',
+ 'C18': 'Proved for all integers/texts: round trip on each signed 10-digit range against the live masks, two\'s complement rendering, composition, places, rejection of out-of-range/alphabet/length/kind. Python int()/bin()/oct()/hex() are modelled by hand.',
+ 'C19': 'Proved for every rational x and integer d: ROUND nearest multiple with ties away, ROUNDDOWN/ROUNDUP bracket and fix multiples, TRUNC, INT = floor, MOD identity and sign, CEILING/FLOOR families adjacent multiples, EVEN/ODD. The float↔decimal reading (shortest repr) is checked per case by the harness.',
+ 'C20': 'Proved for all texts and integer positions: slicing partition identities, FIND first match, SUBSTITUTE all/i-th, CONCATENATE = &, TRIM, idempotence, EXACT, number rendering, negative counts, TEXT rounding/grouping/percent for the canonical format grammar. UPPER/LOWER beyond Latin-1 and formats outside the grammar are checked/unsupported, not proved.',
+}
 checks, na = [], []
 REGISTERED = set(open('tools/registered.txt').read().split())
 for pid in ALL:
@@ -30,11 +54,11 @@ for pid in ALL:
         'engine': 'lean4-proof+correspondence',
         'level_claimed': {
             'category': 'proof',
-            'text': getattr(mod, 'LEVEL_TEXT', None) or (
-                f'Lean 4 theorems ({len(mod.THEOREMS)} obligations in {mod.LEAN_MODULE}) prove the property for all '
-                'inputs of a hand-written executable model; the model is tied to /repo on every run by a differential '
-                'correspondence check (compiled model driver vs the real pycel on generated inputs) and by '
-                'regenerating the tables the theorems use from the live source.'),
+            'text': (f'{len(mod.THEOREMS)} Lean 4 theorems in {mod.LEAN_MODULE} about a hand-written executable model, '
+                     'kernel-checked and axiom-audited on every run; the model is tied to /repo on every run by a '
+                     'differential correspondence check (compiled model driver vs the real pycel on generated inputs), '
+                     'by property oracles on implementation outputs, and by regenerating the tables the theorems use '
+                     'from the live source. ' + SCOPE[pid]),
             'design_ref': mod.DESIGN_REF,
         },
         'level_note': 'Trusted: Lean 4.33 kernel, axioms propext/Classical.choice/Quot.sound only, the correspondence '
